@@ -65,8 +65,8 @@ def value(fm: Form, asg: Dict[str, bool]) -> bool:
     if k == "not":
         return not value(fm[1], asg)
     if k == "and":
-        return all(value(x, asg) for x in fm[1])
-    return any(value(x, asg) for x in fm[1])
+        return all(value(x, asg) for x in fm[1])  # ("and", []) is the constant True
+    return any(value(x, asg) for x in fm[1])  # ("or", []) is the constant False
 
 
 def outcome_possible(prog: Program, f: Func, test: ast.AST, label: str, world: Dict[str, bool], atom_name=None) -> bool:
@@ -106,3 +106,148 @@ def conj_possible(prog: Program, f: Func, conds, world: Dict[str, bool], atom_na
         if all(value(fm, asg) == p for fm, p in fms):
             return True
     return False
+
+
+# ---- path-sensitive form: boolean locals with several definitions ------------------------------------------------------------------------
+
+def _stored_names(st: ast.AST) -> List[str]:
+    out: List[str] = []
+    for n in ast.walk(st):
+        if isinstance(n, ast.Name) and isinstance(n.ctx, (ast.Store, ast.Del)):
+            out.append(n.id)
+        elif isinstance(n, (ast.FunctionDef, ast.AsyncFunctionDef, ast.ClassDef)):
+            out.append(n.name)
+    return out
+
+
+class _PathState:
+    __slots__ = ("env", "ver", "conds")
+
+    def __init__(self, env: Dict[str, Form], ver: Dict[str, int], conds: List[Tuple[Form, bool]]):
+        self.env, self.ver, self.conds = env, ver, conds
+
+    def copy(self) -> "_PathState":
+        return _PathState(dict(self.env), dict(self.ver), list(self.conds))
+
+
+def _form_env(e: ast.AST, st: _PathState, atom_name, atoms: Dict[str, int]) -> Form:
+    if isinstance(e, ast.BoolOp):
+        return ("and" if isinstance(e.op, ast.And) else "or", [_form_env(v, st, atom_name, atoms) for v in e.values])
+    if isinstance(e, ast.UnaryOp) and isinstance(e.op, ast.Not):
+        return ("not", _form_env(e.operand, st, atom_name, atoms))
+    if isinstance(e, ast.IfExp):
+        c = _form_env(e.test, st, atom_name, atoms)
+        return ("or", [("and", [c, _form_env(e.body, st, atom_name, atoms)]), ("and", [("not", c), _form_env(e.orelse, st, atom_name, atoms)])])
+    if isinstance(e, ast.Constant) and isinstance(e.value, bool):
+        return ("and", []) if e.value else ("or", [])
+    if isinstance(e, ast.Call) and isinstance(e.func, ast.Name) and e.func.id == "bool" and len(e.args) == 1 and not e.keywords:
+        return _form_env(e.args[0], st, atom_name, atoms)
+    if isinstance(e, ast.Name) and e.id in st.env:
+        return st.env[e.id]
+    neg = False
+    nm = atom_name(e) if atom_name is not None else None
+    if nm is not None:
+        if nm.startswith("!"):
+            nm, neg = nm[1:], True
+    else:
+        x = e
+        if isinstance(e, ast.Compare) and len(e.ops) == 1:
+            swap = {ast.IsNot: ast.Is, ast.NotEq: ast.Eq, ast.NotIn: ast.In}.get(type(e.ops[0]))
+            if swap is not None:
+                x, neg = ast.Compare(left=e.left, ops=[swap()], comparators=e.comparators), True
+        nm = ast.unparse(x)
+    # the same text after a store to one of its names is another proposition
+    vs = sorted({(n.id, st.ver[n.id]) for n in ast.walk(e) if isinstance(n, ast.Name) and st.ver.get(n.id)})
+    if vs:
+        nm += "@" + ",".join(f"{a}{b}" for a, b in vs)
+    atoms.setdefault(nm, len(atoms))
+    return ("not", ("atom", nm)) if neg else ("atom", nm)
+
+
+def _sat(conds: List[Tuple[Form, bool]], atoms: Dict[str, int], world: Dict[str, bool]) -> bool:
+    used: Dict[str, int] = {}
+
+    def collect(fm: Form) -> None:
+        if fm[0] == "atom":
+            used.setdefault(fm[1], 0)
+        elif fm[0] == "not":
+            collect(fm[1])
+        else:
+            for x in fm[1]:
+                collect(x)
+    for fm, _p in conds:
+        collect(fm)
+    free = [a for a in used if a not in world]
+    if len(free) > 14:
+        return True
+    for bits in itertools.product([False, True], repeat=len(free)):
+        asg = dict(zip(free, bits))
+        asg.update(world)
+        if all(value(fm, asg) == p for fm, p in conds):
+            return True
+    return False
+
+
+def feasible_path(prog: Program, f: Func, cfg: CFG, dsts, world: Dict[str, bool], atom_name=None, avoid=(), budget: int = 20000) -> Optional[List[Node]]:
+    """A path from the entry to one of `dsts` whose branch outcomes can hold together in a world where the atoms of `world` have the given
+    values - or None.  Unlike `excluding_branches` the outcomes are read along the path: a boolean local means what its latest assignment
+    on that path gave it (`ok = p.is_absolute()` in one arm, `ok = p[0] == '/'` in the other, `if not ok: raise` after both).  Every node is
+    entered at most twice on a path; when the budget runs out the answer is the plain graph path (feasibility is then not refuted)."""
+    dst_ids = {n.id for n in dsts}
+    avoid_ids = {n.id for n in avoid}
+    atoms: Dict[str, int] = {}
+    steps = [0]
+
+    def go(n: Node, st: _PathState, seen: Dict[int, int], path: List[Node]) -> Optional[List[Node]]:
+        steps[0] += 1
+        if steps[0] > budget:
+            raise OverflowError
+        if n.id in avoid_ids:
+            return None
+        path = path + [n]
+        if n.kind == "branch" and n.ast is not None and isinstance(n.ast, ast.expr) and n.label in ("T", "F"):
+            fm = _form_env(n.ast, st, atom_name, atoms)
+            st = st.copy()
+            st.conds.append((fm, n.label == "T"))
+            if not _sat(st.conds, atoms, world):
+                return None
+        if n.id in dst_ids:
+            return path
+        if n.kind in ("stmt", "loop", "handler") and n.ast is not None:
+            a = n.ast
+            tgt = None
+            if isinstance(a, ast.Assign) and len(a.targets) == 1 and isinstance(a.targets[0], ast.Name):
+                tgt, val = a.targets[0].id, a.value
+            elif isinstance(a, ast.AnnAssign) and isinstance(a.target, ast.Name) and a.value is not None:
+                tgt, val = a.target.id, a.value
+            stored = _stored_names(a.target) if isinstance(a, (ast.For, ast.AsyncFor)) else ([a.name] if isinstance(a, ast.ExceptHandler) and a.name else _stored_names(a) if isinstance(a, ast.stmt) and not isinstance(a, (ast.For, ast.AsyncFor, ast.While, ast.If, ast.With, ast.Try)) else _stored_names(a) if isinstance(a, ast.withitem) else [])
+            if stored or tgt:
+                st = st.copy()
+                if tgt is not None and isinstance(val, (ast.BoolOp, ast.UnaryOp, ast.Compare, ast.Call, ast.Name, ast.IfExp, ast.Constant)) and (not isinstance(val, ast.Constant) or isinstance(val.value, bool)):
+                    fm = _form_env(val, st, atom_name, atoms)
+                    st.ver[tgt] = st.ver.get(tgt, 0) + 1
+                    st.env[tgt] = fm
+                    stored = [x for x in stored if x != tgt]
+                for nm in stored:
+                    st.env.pop(nm, None)
+                    st.ver[nm] = st.ver.get(nm, 0) + 1
+        for s, _lab in n.succ:
+            k = seen.get(s.id, 0)
+            if k >= 2:
+                continue
+            seen2 = dict(seen)
+            seen2[s.id] = k + 1
+            r = go(s, st, seen2, path)
+            if r is not None:
+                return r
+        return None
+
+    import sys
+    old = sys.getrecursionlimit()
+    sys.setrecursionlimit(max(old, 20000))
+    try:
+        return go(cfg.entry, _PathState({}, {}, []), {cfg.entry.id: 1}, [])
+    except OverflowError:
+        return cfg.find_path([cfg.entry], list(dsts), avoid=list(avoid) + excluding_branches(prog, f, cfg, world, atom_name))
+    finally:
+        sys.setrecursionlimit(old)
